@@ -49,6 +49,9 @@ var fixedVals map[string]int64
 // lemmasOff disables zzLemma (second pass when a helper lemma was not proved).
 var lemmasOff bool
 
+// checkProp: the property a `check` run is deciding ("" for ad-hoc runs).
+var checkProp string
+
 // fixedNow (ns since 1970), when non-zero, is what time.Now returns.
 var fixedNow int64
 
@@ -102,6 +105,11 @@ func (e *Engine) intrinsic(st *State, fn *ssa.Function, name string, args []Valu
 			c := args[0].(*Term)
 			lbl := concStr(args[1])
 			e.addQuery("assert", lbl, And(st.g, Not(c)), site)
+			if checkProp != "" && !relevant(checkProp, lbl) {
+				// obligations of other properties are recorded (and ignored by this
+				// check) but not assumed, so they cannot mask this property's own
+				return nil, true, st
+			}
 			if invNoAssume && strings.HasPrefix(lbl, "Inv:") {
 				// second pass after a broken invariant: do not assume it, so that its
 				// property-level consequences in later steps become visible
